@@ -96,6 +96,8 @@ def elapsed_proxy():
     f1 = sys._getframe(1)
     name = f1.f_code.co_name
     cid = THREAD_CID.get(threading.get_ident())
+    if getattr(TL, 'retime_reads', None) is not None:
+        TL.retime_reads.append(t)
     sc_ = getattr(TL, 'sched', None)
     if name == '_seconds' and sc_ is not None and not TL.based:     # (thread idents are reused: no cid test)
         # _MainTimeThread._seconds inside clock.sched(delta, ...) called by a non-clock thread: the time base of
@@ -588,8 +590,10 @@ class Run:
                 t0 = real_now()
                 c.clear()
                 self.scheds.append([who, None, 'clear', None, t0, real_now()])
-            elif k in ('tempo', 'beats_add'):
+            elif k in ('tempo', 'beats_add', 'etempo'):
                 self.retime(op, who, lock=True)
+            elif k == 'bpb':
+                c.beats_per_bar = op[1]      # only legal from the clock's own tasks; does not move the time map
             elif k == 'nolock':
                 self.retime(op[1], who, lock=PROXIES)
             elif k == 'via':
@@ -628,17 +632,33 @@ class Run:
 
         def change():
             t0 = real_now()
+            val = float(Fraction(op[1], op[2]))
+            # the anchor of the change: the caller's logical time.  Inside a task it is frozen (read it now); for a
+            # non-clock thread every read refreshes from the physical clock: the entry point's OWN last read counts
+            frozen = main.current_tt._seconds
+            if op[0] == 'beats_add':
+                val = c.beats + val
+            TL.retime_reads = []
             if PROXIES:
                 LOG.append((cid, 'tempo_req', op[0]))
             try:
                 if op[0] == 'tempo':
-                    c.tempo = float(Fraction(op[1], op[2]))
+                    c.tempo = val
+                elif op[0] == 'etempo':
+                    c.etempo(val)
                 else:
-                    c.beats = c.beats + float(Fraction(op[1], op[2]))
+                    c.beats = val
             finally:
+                reads, TL.retime_reads = TL.retime_reads, None
+                # inside a task the main thread's time is frozen (the reads are ignored by the library);
+                # etempo always anchors at the physical present
+                if op[0] == 'etempo' or not main._in_awake_call:
+                    anchor = reads[-1] if reads else frozen
+                else:
+                    anchor = frozen
                 if PROXIES:
                     LOG.append((cid, 'tempo_done', fr(c._tempo), fr(c._base_seconds), fr(c._base_beats),
-                                fr(c._beat_dur)))
+                                fr(c._beat_dur), fr(anchor), fr(val)))
             self.scheds.append([who, None, op[0], [op[1], op[2]], t0, real_now()])
         if lock:
             with main._main_lock:
